@@ -323,10 +323,59 @@ func c05Giant(r *Rng) Case {
 	return Case{Class: "giant", Ops: ops}
 }
 
+// c05Long: MANY SMALL builds from ONE Recorder. The clause "the feedback packet count increases by one per packet
+// (mod 256)" speaks about every packet a recorder ever makes, so a case must outlive the 8-bit count: 260..640 feedback
+// packets, one per build mostly, sometimes two (the second arrival is more than the largest delta, 8191.75 ms, after
+// the first: it does not fit the packet), sometimes none (a build with nothing new must not use up a count).  Three
+// ops per packet: the whole case costs less than one `giant` record run.
+func c05Long(r *Rng) Case {
+	var ops []string
+	if r.Chance(1, 4) {
+		ops = append(ops, fmt.Sprintf("cfg sender=%d media=%d", r.U64()&0xFFFFFFFF, r.U64()&0xFFFFFFFF))
+	}
+	seq := r.Intn(65536)
+	t := int64(r.Pick(0, 1000, 63999, 64000, 123456789))
+	rec := func(dt int64) {
+		ops = append(ops, fmt.Sprintf("rec seq=%d t=%d", seq%65536, t))
+		seq++
+		t += dt
+	}
+	target := r.Pick(260, 300, 515, 530, 640) // 515 and more: the count passes 255 twice
+	for pk := 0; pk < target; {
+		switch r.Intn(10) {
+		case 0: // two packets from one build
+			rec(8191750 + int64(r.Pick(250, 1000, 500000)))
+			rec(int64(r.Pick(250, 1000, 20000)))
+			pk += 2
+		case 1: // a build with nothing new in between
+			rec(int64(r.Pick(250, 1000, 20000)))
+			ops = append(ops, "build")
+			pk++
+		case 2: // a few numbers lost before the packet
+			seq += r.Pick(1, 2, 7, 14, 30)
+			rec(int64(r.Pick(250, 1000, 70000)))
+			pk++
+		case 3: // two records, one packet
+			rec(int64(r.Pick(0, 250, 1000)))
+			rec(int64(r.Pick(250, 1000, 20000)))
+			pk++
+		default:
+			rec(int64(r.Pick(250, 1000, 1000, 20000, 70000, 600000)))
+			pk++
+		}
+		ops = append(ops, "build")
+	}
+	return Case{Class: "longrun", Ops: ops}
+}
+
 func c05Case(r *Rng, tier string, idx int) Case {
 	// 8 giant cases in the quick tier (1000 cases), 1 in 1000 in the thorough tier (cost)
 	if (tier != "thorough" && idx%125 == 77) || (tier == "thorough" && idx%1000 == 777) {
 		return c05Giant(r)
+	}
+	// 8 long runs in the quick tier, 1 in 500 in the thorough tier
+	if (tier != "thorough" && idx%125 == 33) || (tier == "thorough" && idx%500 == 333) {
+		return c05Long(r)
 	}
 	cl := c05Classes[idx%len(c05Classes)]
 	g := &c05Gen{r: r, max: r.Range(20, 300), budget: 45000}
